@@ -350,10 +350,6 @@ func VerifC18_InterpValidation() {
 		// invalid side is explored here.
 		verifAssume(!strict)
 	}
-	if kind == verifC18kClamped && nx == 2 && ny == 2 {
-		// two EQUAL knots: see VerifC18_ClampedCubicTwoEqualKnots (finding F10)
-		verifAssume(xs[0] != xs[1])
-	}
 	panicked, _, _ := verifCatch(func() { verifC18fit(kind, xs, ys) })
 	min := 2
 	if kind == verifC18kNotAKnot {
@@ -368,8 +364,8 @@ func VerifC18_InterpValidation() {
 // VerifC18_ClampedCubicTwoEqualKnots: the doc of ClampedCubic.Fit says it
 // panics if the xs are not strictly increasing. With exactly two knots the
 // check inside makeCubicSplineSecondDerivativeEquations is skipped (n > 2
-// only), and for xs[0] == xs[1] Fit returns a singular-matrix error instead
-// (finding F10). Case 1 (xs[0] > xs[1]) is the clean control: it panics.
+// only); before /repo 44f53e3 Fit returned a singular-matrix error for
+// xs[0] == xs[1] instead (finding F10, fixed). Case 1 is xs[0] > xs[1].
 func VerifC18_ClampedCubicTwoEqualKnots() {
 	x0 := verifFloat("x0")
 	ys := verifFloats("y", 2)
